@@ -94,8 +94,10 @@ impl Rule for AppendTextComment {
             return Ok(());
         }
 
-        let shift_lines = text.lines().count();
-        ShiftTokenLine::new(shift_lines as isize).flawless_process(block, context);
+        if self.location == AppendLocation::Start {
+            let shift_lines = text.lines().count();
+            ShiftTokenLine::new(shift_lines as isize).flawless_process(block, context);
+        }
 
         match self.location {
             AppendLocation::Start => {
